@@ -170,7 +170,29 @@ def r4(ctx):
         raise AnalysisError('_calc_duct_temp: adiabatic branch')
     pre = [s for s in lp[0].body if isinstance(s, ast.Assign)
            and src(s.targets[0]) == 'qLsq_over_8k']
-    env0 = _branch_env(fi, pre, atoms)
+    # locals of the loop body that merely carry a value into the formulas
+    # (`k_wall = self.duct.thermal_conductivity` read once per wall): bound
+    # once in the function, by a plain assignment at the top level of the
+    # loop body in front of the branch; the formulas are judged on the value
+    # they expand to.  (Whether that value belongs to this wall's material
+    # state is C11.R10's clause.)
+    env0 = {}
+    for s in lp[0].body:
+        if not (isinstance(s, ast.Assign) and len(s.targets) == 1 and
+                isinstance(s.targets[0], ast.Name)
+                and s.lineno < ifs[0].lineno):
+            continue
+        nm_ = s.targets[0].id
+        if s in pre:
+            env0 = _branch_env(fi, [s], atoms, env0)
+        elif nm_ not in atoms and len(U.assigns_of(fi.node, nm_)) == 1:
+            try:
+                env0[nm_] = from_ast(s.value, atoms, env0, auto=True)
+            except NotPolynomial:
+                pass
+    for s in pre:
+        if s.lineno >= ifs[0].lineno:
+            env0 = _branch_env(fi, [s], atoms, env0)
     a = Rat.sym('a')
     q, k, hi, ho, ti, to = (Rat.sym(x) for x in ('q', 'k', 'hi', 'ho', 'ti',
                                                  'to'))
@@ -185,7 +207,20 @@ def r4(ctx):
     s_out = find_all("self.temp['duct_surf'][i, 1] = Q_v", fi.node, 'stmt')
     if not (len(mw) == len(s_in) == len(s_out) == 1):
         raise AnalysisError('_calc_duct_temp: result stores')
-    for name, body in (('coupled', ifs[0].orelse), ('adiabatic', ifs[0].body)):
+    # which arm holds the adiabatic formulas is decided by the value of the
+    # test for the outermost duct under the adiabatic option, not by the
+    # polarity it is written in (`if not (adiabatic and last): <coupled>
+    # else: <adiabatic>` is the same function)
+    iv_ = lp[0].target.id if isinstance(lp[0].target, ast.Name) else 'i'
+    pol = U.eval_test(ifs[0].test, {'adiabatic': True, iv_: 2, iv_ + ' + 1': 3,
+                                    'self.n_duct': 3})
+    if pol is None:
+        raise AnalysisError('_calc_duct_temp: adiabatic test %s is not '
+                            'decided for the outermost duct'
+                            % src(ifs[0].test))
+    arms = (ifs[0].body, ifs[0].orelse) if pol else (ifs[0].orelse,
+                                                     ifs[0].body)
+    for name, body in (('coupled', arms[1]), ('adiabatic', arms[0])):
         env = _branch_env(fi, body, atoms, env0)
         if 'c1' not in env or 'c2' not in env:
             raise AnalysisError('_calc_duct_temp %s branch: c1/c2' % name)
@@ -276,6 +311,22 @@ def r4(ctx):
             and isinstance(pd.left.slice, ast.Slice) \
             and pd.left.slice.step is None:
         sl = pd.left.slice
+    elif isinstance(pd, ast.BinOp) and isinstance(pd.op, ast.Div) \
+            and isinstance(pd.left, ast.Subscript) \
+            and isinstance(pd.left.value, ast.Name) \
+            and pd.left.value.id == pvec \
+            and isinstance(pd.left.slice, ast.Call) \
+            and isinstance(pd.left.slice.func, ast.Name) \
+            and pd.left.slice.func.id == 'slice' \
+            and len(pd.left.slice.args) == 2 \
+            and not pd.left.slice.keywords \
+            and not any(isinstance(a_, ast.Starred)
+                        for a_ in pd.left.slice.args) \
+            and not U.assigns_of(dp.node, 'slice') \
+            and 'slice' not in dp.params:
+        # x[slice(lo, hi)] is x[lo:hi] (the builtin; not re-bound here)
+        sl = ast.Slice(lower=pd.left.slice.args[0],
+                       upper=pd.left.slice.args[1], step=None)
     for nm_, bnd, want in (
             ('start', sl.lower if sl is not None else None,
              Rat.sym('d') * Rat.sym('N')),
